@@ -232,7 +232,7 @@ func (w *Wrap) coq() string {
 
 func (f *FMap) coq() string {
 	if f.Take != nil {
-		return lib.CoqApp("FTake", lib.CoqN(uint64(*f.Take)))
+		return lib.CoqApp("FTake", lib.CoqN(uint64(*f.Take)), coqBool(f.TakeMap))
 	}
 	es := make([]string, len(f.To))
 	for i, e := range f.To {
@@ -609,8 +609,14 @@ func stats(p *Prog) pstats {
 			st.keys++
 			if q.OutMap.Take != nil {
 				feat["fromfield"] = true
+				if q.OutMap.TakeMap {
+					feat["fromfield-map"] = true
+				}
 			} else if q.OutMap.To[0].From == nil {
 				feat["tofield"] = true
+				if q.rawOutMap() {
+					feat["tofield-map"] = true
+				}
 			} else {
 				feat["mapfields"] = true
 			}
